@@ -30,22 +30,34 @@ def build_py(t, cg=None):
                               separable=t['sepa'])
 
 
+def S(s):
+    """Coq term of type str for a Python string (code points 0..255): packed words, see M_C04.d"""
+    b = s.encode('latin-1')
+    ws = [len(b)]
+    for i in range(0, len(b), 7):
+        n = 0
+        for ch in b[i:i + 7][::-1]:
+            n = n * 256 + ch
+        ws.append(n)
+    return Raw('(d [%s]%%uint63)' % ';'.join(map(str, ws)))
+
+
 def coq_cont(c):
     if isinstance(c, str):
-        return Raw('(inl %s)' % coq_string(c))
-    return Raw('(inr (%s, %s))' % (coq_string(c[0]), coq_string(c[1])))
+        return C('CStr', S(c))
+    return C('CPair', S(c[0]), S(c[1]))
 
 
 def coq_tree(t, w=None, cont=None):
     if t is None:
-        return Raw('SNone')
+        return Raw('RNone')
     if isinstance(t, str):
-        return C('SStr', t)
+        return C('RStr', S(t))
     if 'cat' in t:
-        return C('SCat', coq_tree(t['cat'][0], w, cont), coq_tree(t['cat'][1], w, cont))
+        return C('RCat', coq_tree(t['cat'][0], w, cont), coq_tree(t['cat'][1], w, cont))
     if 'ji' in t:
-        return C('SJ', [coq_tree(i, w, cont) for i in t['ji']], t['sep'], w, coq_cont(cont), bool(t['sepa']))
-    return C('SJ', [coq_tree(i, w, cont) for i in t['j']], t['sep'], t['w'], coq_cont(t['cont']), bool(t['sepa']))
+        return C('RJ', [coq_tree(i, w, cont) for i in t['ji']], S(t['sep']), w, coq_cont(cont), bool(t['sepa']))
+    return C('RJ', [coq_tree(i, w, cont) for i in t['j']], S(t['sep']), t['w'], coq_cont(t['cont']), bool(t['sepa']))
 
 
 def obj_tree(o):
@@ -60,7 +72,7 @@ def obj_tree(o):
 
 def coq_res(out):
     if 'ok' in out:
-        return C('Ok', out['ok'])
+        return C('Ok', S(out['ok']))
     return C('Err', Raw({'AssertionError': 'EAssert', 'AttributeError': 'EAttr', 'TypeError': 'EType'}[out['error']]))
 
 
@@ -181,11 +193,21 @@ def obj_class(o, top=True, params=None, depth=0):
     return all(obj_class(i, False, params, depth + 1) for i in o.items)
 
 
-def check_wrapped(obj, text, first_prefix=''):
+def flat_unwrapped(o):
+    """what the same object prints when nothing has to be wrapped"""
+    from loki.tools.strings import JoinableStringList
+    def big(x):
+        if isinstance(x, str) or x is None:
+            return x
+        return JoinableStringList([big(i) for i in x.items], sep=x.sep, width=BIG, cont=list(x.cont), separable=x.separable)
+    return str(big(o))
+
+
+def check_wrapped(obj, text, first_prefix='', force=False):
     """direct check of the property on one printed object. `first_prefix`: text already on the first line."""
     w, (c0, c1) = obj.width, obj.cont
-    content = flat(obj)
-    if not lit_clean(content):
+    content = flat_unwrapped(obj) if force else flat(obj)
+    if not lit_clean(content) and not force:
         return None
     glue = c0 + c1
     pieces = text.split(glue)
@@ -207,13 +229,11 @@ def check_wrapped(obj, text, first_prefix=''):
                 return 'line break inside a character literal at offset %d: ...%r | %r...' % (pos, content[max(0, pos - 10):pos], content[pos:pos + 10])
             if pos not in perm:
                 return 'line break inside a chunk at offset %d: ...%r | %r...' % (pos, content[max(0, pos - 10):pos], content[pos:pos + 10])
-        line = (first_prefix if n == 0 else c1) + p + c0
-        if len(line) > w:
-            if n == 0 and not unbreakable(p):
-                # the first line may carry several items only if they fit
-                return 'first line too long (%d > %d): %r' % (len(line), w, line[:60])
-            if n > 0 and not unbreakable(p):
-                return 'line %d too long (%d > %d) and not a single chunk: %r' % (n, len(line), w, line[:80])
+        line = (first_prefix if n == 0 else c1) + p
+        if len(line) + len(c0) > w:
+            # only a line that holds nothing but one unbreakable chunk after the continuation prefix may be longer
+            if not (line.startswith(c1) and unbreakable(line[len(c1):])):
+                return 'line %d too long (%d + %d > %d) and not a single chunk: %r' % (n, len(line), len(c0), w, line[:100])
         pos += len(p)
     return None
 
@@ -329,11 +349,302 @@ def g_cont(rng, w, clean):
                        ' &\r\n  & ', [' & \n', ' ' * (w - 1) + '&']])
 
 
+# ----------------------------------------------------------------------------------------------
+# real generated code: Fortran sources with long statements, printed by fgen
+# ----------------------------------------------------------------------------------------------
+def g_name(rng, used, lo=1, hi=31):
+    while True:
+        n = rng.choice([rng.randint(lo, 6), rng.randint(lo, 14), rng.randint(10, hi)])
+        nm = rng.choice('abcdefghklmnopqrstuvwxyz') + ''.join(rng.choice(IDCH) for _ in range(n - 1))
+        if nm not in used and nm not in FORTRAN_RESERVED and not nm.endswith('_'):
+            used.add(nm)
+            return nm
+
+
+FORTRAN_RESERVED = {'if', 'do', 'end', 'call', 'then', 'else', 'real', 'type', 'max', 'min', 'abs', 'sqrt', 'exp', 'n', 'm', 'i', 'j',
+                    'where', 'data', 'use', 'go', 'to', 'print', 'stop', 'or', 'and', 'not', 'eq', 'ne', 'lt', 'le', 'gt', 'ge', 'in', 'out'}
+
+
+class SrcGen:
+    """a compilable free-form subroutine with statements much longer than the line limit"""
+
+    def __init__(self, rng, quotes_ok=False, long_where=False):
+        self.rng = rng
+        self.long_where = long_where
+        self.used = set()
+        self.quotes_ok = quotes_ok
+        r = rng
+        self.arrs = [g_name(r, self.used) for _ in range(r.randint(1, 4))]
+        self.vecs = [g_name(r, self.used) for _ in range(r.randint(1, 4))]
+        self.scal = [g_name(r, self.used) for _ in range(r.randint(2, 30))]
+        self.ints = [g_name(r, self.used) for _ in range(r.randint(1, 6))]
+        self.logs = [g_name(r, self.used) for _ in range(r.randint(1, 5))]
+        self.strs = [g_name(r, self.used) for _ in range(r.randint(1, 3))]
+        self.tvar = g_name(r, self.used)
+        self.inner_f = [g_name(r, self.used) for _ in range(2)]
+        self.outer_f = [g_name(r, self.used) for _ in range(2)]
+        self.name = g_name(r, self.used, 3, 20)
+
+    def term(self, d=0):
+        r = self.rng
+        k = r.random()
+        if k < 0.2: return r.choice(self.scal)
+        if k < 0.35: return '%s(%s, %s)' % (r.choice(self.arrs), self.idx(), self.idx())
+        if k < 0.45: return '%s(%s)' % (r.choice(self.vecs), self.idx())
+        if k < 0.6:
+            return '%s%%%s(%s)%%%s(%s)' % (self.tvar, self.outer_f[0], r.randint(1, 5), self.inner_f[0], self.idx())
+        if k < 0.65: return '%s%%%s' % (self.tvar, self.outer_f[1])
+        if k < 0.75: return r.choice(['1.0d0', '2.5d0', '0.5d0', '3.0d0', '1.0d-3', '42.0d0'])
+        if k < 0.9 and d < 3:
+            f = r.choice(['max', 'min', 'abs', 'sqrt', 'exp'])
+            if f in ('max', 'min'):
+                return '%s(%s, %s)' % (f, self.expr(r.randint(5, 40), d + 1), self.expr(r.randint(5, 40), d + 1))
+            return '%s(%s)' % (f, self.expr(r.randint(5, 60), d + 1))
+        if d < 3: return '(%s)' % self.expr(r.randint(5, 60), d + 1)
+        return r.choice(self.scal)
+
+    def idx(self):
+        r = self.rng
+        return r.choice(['i', 'j', 'i', '1', 'n', 'i + 1', r.choice(self.ints), 'min(i + %s, n)' % r.choice(self.ints)])
+
+    def expr(self, target, d=0):
+        r = self.rng
+        out = self.term(d)
+        while len(out) < target:
+            out += r.choice([' + ', ' - ', '*', '/', ' + ', '*', '**2 + ']) + self.term(d)
+        return out
+
+    def cond(self, target):
+        r = self.rng
+        out = ''
+        while len(out) < target:
+            if out: out += r.choice([' .and. ', ' .or. '])
+            k = r.random()
+            if k < 0.25: out += r.choice(self.logs)
+            elif k < 0.35: out += '.not. ' + r.choice(self.logs)
+            else: out += '%s %s %s' % (self.expr(r.randint(3, 50), 1), r.choice(['>', '<', '>=', '<=', '==', '/=']), self.expr(r.randint(3, 30), 1))
+        return out
+
+    def lit(self, n):
+        r = self.rng
+        alph = 'abcdefghijklmnopqrstuvwxyz0123456789      ,.:()%+-*/=_<>'
+        if self.quotes_ok: alph += '\'\'"'
+        body = ''.join(r.choice(alph) for _ in range(n))
+        q = r.choice('\'"')
+        return q + body.replace(q, q + q) + q
+
+    def tlen(self, lw):
+        r = self.rng
+        k = r.random()
+        if k < 0.25: return r.randint(5, lw // 2)
+        if k < 0.6: return lw + r.randint(-30, 30)
+        if k < 0.93: return r.randint(lw, 2 * lw)
+        return r.randint(2 * lw, 4 * lw)
+
+    def stmt(self, lw, depth=0):
+        """list of source lines (unindented; the frontend ignores layout) """
+        r = self.rng
+        k = r.random()
+        if k < 0.3:
+            lhs = r.choice([r.choice(self.scal), '%s(i, j)' % r.choice(self.arrs), '%s(i)' % r.choice(self.vecs),
+                            '%s%%%s(2)%%%s(j)' % (self.tvar, self.outer_f[0], self.inner_f[0])])
+            st = ['%s = %s' % (lhs, self.expr(self.tlen(lw)))]
+            if r.random() < 0.2:
+                st[0] += '  ! ' + ''.join(r.choice(IDCH + '   ') for _ in range(r.randint(1, 160)))
+            return st
+        if k < 0.42:
+            args = [self.expr(r.randint(1, 40), 2) if r.random() < 0.4 else r.choice(self.scal + self.arrs + self.vecs + self.ints)
+                    for _ in range(r.randint(1, 40))]
+            return ['call %s(%s)' % (g_name(r, set(self.used), 3, 25), ', '.join(args))]
+        if k < 0.52:
+            n = r.choice([8, 20, 50, 100, 140]) if lw >= 100 else r.choice([5, 20, 40, 70])
+            parts = [self.lit(r.randint(0, n)) for _ in range(r.randint(1, 5))]
+            if r.random() < 0.5:
+                return ['%s = %s' % (r.choice(self.strs), ' // '.join(parts))]
+            return ['print *, %s' % ', '.join(parts + [r.choice(self.scal)])]
+        if k < 0.62 and depth < 5:
+            body = sum((self.stmt(lw, depth + 1) for _ in range(r.randint(1, 3))), [])
+            out = ['if (%s) then' % self.cond(self.tlen(lw))] + body
+            if r.random() < 0.4:
+                out += ['else if (%s) then' % self.cond(self.tlen(lw))] + self.stmt(lw, depth + 1)
+            if r.random() < 0.4:
+                out += ['else'] + self.stmt(lw, depth + 1)
+            return out + ['end if']
+        if k < 0.72 and depth < 5 and not getattr(self, 'in_loop', 0) >= 2:
+            self.in_loop = getattr(self, 'in_loop', 0) + 1
+            body = sum((self.stmt(lw, depth + 1) for _ in range(r.randint(1, 3))), [])
+            self.in_loop -= 1
+            self.loops = getattr(self, 'loops', 0) + 1
+            var = 'j' if getattr(self, 'in_loop', 0) >= 1 else 'i'
+            return ['do %s = 1, %s' % (var, r.choice(['n', 'm', 'min(n, m)']))] + body + ['end do']
+        if k < 0.78:
+            vs = r.sample(self.scal + self.arrs + self.vecs, min(len(self.scal), r.randint(1, 25)))
+            cl = r.choice(['copyin', 'copy', 'present', 'private', 'create'])
+            return ['!$acc %s %s(%s) %s(%s) async(1)' % (r.choice(['data', 'parallel loop gang vector', 'kernels']), cl, ', '.join(vs),
+                                                        r.choice(['copyout', 'firstprivate']), ', '.join(vs[:max(1, len(vs) // 2)]))]
+        if k < 0.84:
+            return ['! ' + ''.join(r.choice(IDCH + '    ') for _ in range(r.randint(1, 200)))]
+        if k < 0.9:
+            return ['if (%s) %s = %s' % (self.cond(r.randint(5, lw)), r.choice(self.scal), self.expr(r.randint(5, lw)))]
+        if k < 0.95:
+            return ['where (%s(:, 1) > %s) %s(:, 2) = %s' % (r.choice(self.arrs), self.expr(r.randint(3, lw), 2), r.choice(self.arrs),
+                                                            self.long_where and self.expr(self.tlen(lw), 2) or r.choice(self.scal + ['1.0d0']))]
+        return ['%s = %s' % (r.choice(self.logs), self.cond(self.tlen(lw)))]
+
+    def source(self, lw):
+        r = self.rng
+        args = ['n', 'm'] + self.arrs + self.vecs + (self.scal[:r.randint(0, len(self.scal))] if r.random() < 0.6 else [])
+        decl = ['integer, intent(in) :: n, m']
+        decl.append('real(kind=8), intent(inout) :: ' + ', '.join('%s(n, m)' % a for a in self.arrs))
+        decl.append('real(kind=8), intent(inout) :: ' + ', '.join('%s(n)' % a for a in self.vecs))
+        decl.append('real(kind=8) :: ' + ', '.join(self.scal))
+        decl.append('integer :: i, j, ' + ', '.join(self.ints))
+        decl.append('logical :: ' + ', '.join(self.logs))
+        decl.append('character(len=1000) :: ' + ', '.join(self.strs))
+        decl += ['type t_inner', 'real(kind=8) :: %s(10), %s' % tuple(self.inner_f), 'end type t_inner',
+                 'type t_outer', 'type(t_inner) :: %s(5)' % self.outer_f[0], 'real(kind=8) :: %s' % self.outer_f[1], 'end type t_outer',
+                 'type(t_outer) :: %s' % self.tvar]
+        body = sum((self.stmt(lw) for _ in range(r.randint(2, 5))), [])
+        lines = ['subroutine %s(%s)' % (self.name, ', '.join(args)), 'implicit none'] + decl + body + ['end subroutine %s' % self.name]
+        return '\n'.join(src_wrap(l, r) for l in lines) + '\n'
+
+
+def src_wrap(line, rng):
+    """write a long source line with free-form continuations at blanks outside literals/comments (input layout only)"""
+    if len(line) <= 120 or line.lstrip().startswith('!'):
+        if line.startswith('!$') and len(line) > 120:
+            out, cur = [], ''
+            for wd in line.split(' '):
+                if len(cur) + len(wd) > 100 and cur:
+                    out.append(cur + ' &'); cur = '!$acc & ' + wd
+                else:
+                    cur = (cur + ' ' + wd) if cur else wd
+            return '\n'.join(out + [cur])
+        return line
+    out, cur, inq = [], '', None
+    code_end = len(line)
+    k = 0
+    while k < len(line):
+        ch = line[k]
+        if inq:
+            if ch == inq: inq = None
+        elif ch in '\'"': inq = ch
+        elif ch == '!':
+            code_end = k; break
+        k += 1
+    code, comment = line[:code_end].rstrip(), line[code_end:]
+    inq = None
+    for k, ch in enumerate(code):
+        if inq:
+            if ch == inq: inq = None
+        elif ch in '\'"': inq = ch
+        if ch == ' ' and not inq and len(cur) > 90:
+            out.append(cur + ' &'); cur = '  & '
+        else:
+            cur += ch
+    return '\n'.join(out + [cur + ('  ' + comment if comment else '')])
+
+
+TOK = re.compile(r"""'(?:[^']|'')*'|"(?:[^"]|"")*"|[A-Za-z_][A-Za-z0-9_]*|\d+\.?\d*(?:[eEdD][+-]?\d+)?(?:_\w+)?|\.\d+(?:[eEdD][+-]?\d+)?|\*\*|//|==|/=|<=|>=|=>|::|\S""")
+
+
+def split_comment(line):
+    inq = None
+    for k, ch in enumerate(line):
+        if inq:
+            if ch == inq: inq = None
+        elif ch in '\'"': inq = ch
+        elif ch == '!':
+            return line[:k], line[k:]
+    return line, ''
+
+
+def logical_statements(text):
+    """join free-form continuation lines; returns list of (statement text, comment or None, physical lines)"""
+    out, cur, phys = [], None, []
+    for line in text.split('\n'):
+        st = line.lstrip()
+        if st.startswith('!$'):
+            sent = st.split(' ')[0]
+            body = st
+            if cur is not None and cur[0] == 'pragma':
+                rest = st[len(sent):].lstrip()
+                if rest.startswith('&'): rest = rest[1:]
+                body = rest
+            cont = body.rstrip().endswith('&')
+            if cont: body = body.rstrip()[:-1]
+            if cur is not None and cur[0] == 'pragma':
+                cur[1] += body; phys.append(line)
+            else:
+                cur = ['pragma', body]; phys = [line]
+            if not cont:
+                out.append((cur[1], None, phys)); cur = None
+            continue
+        if st.startswith('!') or st == '':
+            out.append(('', st, [line]))
+            continue
+        code, comment = split_comment(line)
+        body = code
+        if cur is not None:
+            b = body.lstrip()
+            if b.startswith('&'): b = b[1:]
+            body = b
+        cont = body.rstrip().endswith('&')
+        if cont: body = body.rstrip()[:-1]
+        if cur is not None:
+            cur[1] += body; phys.append(line)
+        else:
+            cur = ['code', body]; phys = [line]
+        if not cont:
+            out.append((cur[1], comment.strip() or None, phys)); cur = None
+    if cur is not None:
+        out.append((cur[1] + ' <dangling continuation>', None, phys))
+    return out
+
+
+def tokens_of(text):
+    return [(TOK.findall(s), (c or '').strip()) for s, c, _ in logical_statements(text)]
+
+
+def check_fortran_lines(text, lw):
+    """every physical line within the limit unless it is a comment / holds a trailing comment / a single unbreakable chunk"""
+    for n, line in enumerate(text.split('\n')):
+        st = line.lstrip()
+        if st.startswith('!') and not st.startswith('!$'):
+            continue
+        code, comment = (line, '') if st.startswith('!$') else split_comment(line)
+        code = code.rstrip()
+        if len(code) <= lw:
+            continue
+        body = code.lstrip()
+        if body.startswith('!$'):
+            body = body[len(body.split(' ')[0]):].lstrip()
+        if body.startswith('&'): body = body[1:].lstrip()
+        if body.endswith('&'): body = body[:-1].rstrip()
+        if unbreakable(body) or TOK.fullmatch(body):
+            continue
+        return 'line %d is %d > %d columns and not a single unbreakable chunk: %r' % (n + 1, len(code), lw, code[:140])
+    return None
+
+
+def run_gfortran(text, lw):
+    work = tempfile.mkdtemp(prefix='lv_c04_')
+    try:
+        f = os.path.join(work, 'r.f90')
+        open(f, 'w').write(text + '\n')
+        r = subprocess.run(['gfortran', '-fsyntax-only', '-ffree-line-length-%d' % max(lw, 132), '-Werror=line-truncation', f],
+                           cwd=work, stdout=subprocess.PIPE, stderr=subprocess.STDOUT, text=True, timeout=120)
+        return r.returncode, r.stdout[-1200:]
+    finally:
+        shutil.rmtree(work, ignore_errors=True)
+
+
 class C04(Property):
     id = 'C04'
     imports = ['models.M_C04']
     theorem_file = 'theories/props/T_C04.v'
     parallel = True
+    prelude = 'From Coq Require Import Uint63.\n'
     shard = 250
     rule = ('jsl: random JoinableStringList trees (depth 0-3, 1-10 items, separators, item lengths skewed around the width, '
             'identifiers/expressions/member chains with ")%"/quoted strings with blanks and the other quote, widths 20-140 incl. the '
@@ -358,7 +669,7 @@ class C04(Property):
 
     def generate(self, rng, tier):
         live = self._widths()
-        n_jsl = 1500 if tier == 'quick' else 14000
+        n_jsl = 420 if tier == 'quick' else 4500
         for k in range(n_jsl):
             r = rng.random()
             w = rng.choice(live) if r < 0.25 else rng.choice([20, 24, 30, 40, 60, 80, 100, 140]) if r < 0.6 else rng.randint(20, 140)
@@ -367,9 +678,27 @@ class C04(Property):
             depth = rng.choice([0, 0, 1, 1, 1, 2, 3])
             t = g_tree(rng, w, cont, depth, clean, uniform=clean or rng.random() < 0.5)
             yield {'kind': 'jsl' if clean else 'jsl-edge', 'tree': t}
-        n_fl = 700 if tier == 'quick' else 6000
+        n_fl = 210 if tier == 'quick' else 2200
         for k in range(n_fl):
             yield self._gen_fl(rng, live)
+        n_fg = 20 if tier == 'quick' else 220
+        for k in range(n_fg):
+            yield self._gen_fgen(rng, tier)
+
+    def _gen_fgen(self, rng, tier):
+        r = rng.random()
+        style, lw = ('fortran', None) if r < 0.4 else ('ifs', None) if r < 0.75 else (rng.choice(['fortran', 'ifs']), rng.choice([60, 72, 80, 100, 120]))
+        g = SrcGen(rng)
+        src = g.source(lw or 132)
+        extra = []
+        if rng.random() < 0.35:
+            for _ in range(rng.randint(1, 3)):
+                op = rng.choice(['decl', 'cond', 'call'])
+                extra.append({'op': op, 'n': rng.choice([3, 10, 25, 60]), 'kw': rng.randint(0, 8),
+                              'names': [g_name(rng, g.used) for _ in range(rng.choice([3, 10, 25, 60]))]})
+        compilable = not any(e['op'] == 'call' and e['kw'] for e in extra)
+        return {'kind': 'fgen', 'src': src, 'style': style, 'lw': lw, 'extra': extra,
+                'gfortran': bool(compilable and (tier != 'quick' or rng.random() < 0.25))}
 
     def _gen_fl(self, rng, live):
         r = rng.random()
@@ -433,7 +762,53 @@ class C04(Property):
             except (AssertionError, AttributeError, TypeError) as e:
                 out['error'] = type(e).__name__
             return out
+        if kind == 'fgen':
+            return self._run_fgen(case)
         raise ValueError(kind)
+
+    def _style(self, case, lw=None):
+        from loki.backend.style import FortranStyle, IFSFortranStyle
+        cls = IFSFortranStyle if case['style'] == 'ifs' else FortranStyle
+        lw = lw or case.get('lw')
+        return cls(linewidth=lw) if lw else cls()
+
+    def _run_fgen(self, case):
+        from loki import Subroutine, ir, SymbolAttributes, BasicType
+        from loki.expression import symbols as sym
+        from loki.backend.fgen import fgen, FortranCodegen
+        routine = Subroutine.from_source(case['src'])
+        for e in case.get('extra', []):
+            vs = tuple(sym.Variable(name=nm, type=SymbolAttributes(BasicType.REAL, kind=sym.IntLiteral(8)), scope=routine) for nm in e['names'])
+            routine.spec.append(ir.VariableDeclaration(symbols=vs))
+            if e['op'] == 'cond':
+                c = sym.LogicalOr(tuple(sym.Comparison(v, '>', sym.FloatLiteral('1.0d0')) for v in vs[:e['n']]))
+                routine.body.append(ir.Conditional(condition=c, body=(ir.Assignment(lhs=vs[0], rhs=sym.Sum(vs)),), else_body=()))
+            elif e['op'] == 'call':
+                routine.body.append(ir.CallStatement(name=sym.ProcedureSymbol('ext_' + e['names'][0], scope=routine), arguments=vs[:e['n']],
+                                                     kwarguments=tuple(('kw_%d' % k, vs[k % len(vs)]) for k in range(e['kw']))))
+        style = self._style(case)
+        log = []
+
+        class Logging(FortranCodegen):
+            def format_line(self, *items, **kw):
+                rec = {'items': [obj_tree(i) for i in items], 'kw': dict(kw), 'indent': self.indent, 'cont': self.line_cont(self.indent),
+                       'w': self.style.linewidth}
+                try:
+                    res = super().format_line(*items, **kw)
+                    rec['out'] = {'ok': res}
+                    return res
+                except (AssertionError, AttributeError, TypeError) as ex:
+                    rec['out'] = {'error': type(ex).__name__}
+                    raise
+                finally:
+                    log.append(rec)
+        text = fgen(routine, style=style)
+        text2 = Logging(style=style).visit(routine)
+        unwrapped = fgen(routine, style=self._style(case, BIG))
+        # replay on the model the calls that wrapped (and a few that did not)
+        calls = [r for r in log if 'ok' in r['out'] and '\n' in r['out']['ok']][:10] + [r for r in log if 'ok' in r['out'] and '\n' not in r['out']['ok']][:3]
+        calls = [r for r in calls if all(latin1(x) for x in [r['out'].get('ok', '')])]
+        return {'text': text, 'same': text == text2, 'unwrapped': unwrapped, 'lw': style.linewidth, 'calls': calls, 'ncalls': len(log)}
 
     # ------------------------------------------------------------------ model
     def model_term(self, case, out):
@@ -442,14 +817,23 @@ class C04(Property):
             return coq(C('chk_jsl', coq_tree(case['tree']), coq_res(out)))
         if kind.startswith('fl'):
             w, cont = case['w'], out['cont']
-            cm = None if case['comment'] is None else Some(case['comment'])
-            return coq(C('chk_format_line', w, out['indent'], coq_cont(cont), [coq_tree(i, w, cont) for i in case['items']], cm,
+            cm = None if case['comment'] is None else Some(S(case['comment']))
+            return coq(C('chk_format_line', w, S(out['indent']), coq_cont(cont), [coq_tree(i, w, cont) for i in case['items']], cm,
                          bool(case['no_wrap']), bool(case['no_indent']), bool(case['trim']), coq_res(out)))
+        if kind == 'fgen':
+            ts = []
+            for r in out.get('calls', []):
+                kw = r['kw']
+                cm = kw.get('comment')
+                ts.append(coq(C('chk_format_line', r['w'], S(r['indent']), coq_cont(r['cont']), [coq_tree(i) for i in r['items']],
+                                None if cm is None else Some(S(cm)), bool(kw.get('no_wrap', False)), bool(kw.get('no_indent', False)),
+                                bool(kw.get('trim_spaces', True)), coq_res(r['out']))))
+            return '(%s)' % ' && '.join(ts) if ts else None
         return None
 
     def show_model(self, case, out):
         if case['kind'].startswith('jsl'):
-            return ['str_raw (raw_of %s)' % coq(coq_tree(case['tree']))]
+            return ['str_raw %s' % coq(coq_tree(case['tree']))]
         return []
 
     # ------------------------------------------------------------------ oracle
@@ -461,9 +845,9 @@ class C04(Property):
             if 'ok' not in out:
                 return None
             obj = build_py(case['tree'])
-            if isinstance(obj, str) or not obj_class(obj):
+            if isinstance(obj, str) or not (obj_class(obj) or case.get('force')):
                 return None
-            return check_wrapped(obj, out['ok'])
+            return check_wrapped(obj, out['ok'], force=bool(case.get('force')))
         if kind.startswith('fl'):
             if 'ok' not in out or case['no_wrap']:
                 return None
@@ -485,9 +869,33 @@ class C04(Property):
             elif text != full:
                 return 'format_line changed the joined text'
             return check_wrapped(obj, full)
+        if kind == 'fgen':
+            # the limit that is checked is the one the property names (132) unless the case sets its own narrower style
+            text, lw = out['text'], (case.get('lw') or 132)
+            if not out['same']:
+                return 'fgen() and FortranCodegen.visit disagree'
+            f = check_fortran_lines(text, lw)
+            if f:
+                return f
+            tw, tu = tokens_of(text), tokens_of(out['unwrapped'])
+            if tw != tu:
+                for k, (a, b) in enumerate(zip(tw, tu)):
+                    if a != b:
+                        j = 0
+                        while j < min(len(a[0]), len(b[0])) and a[0][j] == b[0][j]: j += 1
+                        return 'statement %d: token stream changed by wrapping: %r vs unwrapped %r' % (k, a[0][max(0, j - 3):j + 4] or a[1][:60], b[0][max(0, j - 3):j + 4] or b[1][:60])
+                return 'number of statements changed by wrapping (%d vs %d)' % (len(tw), len(tu))
+            if case.get('gfortran') and all(len(split_comment(l)[0].rstrip()) <= lw or l.lstrip().startswith('!') for l in text.split('\n')):
+                rc, msg = run_gfortran(text, lw)
+                if rc != 0:
+                    return 'gfortran rejects the generated routine: ' + msg[-500:]
+            return None
         return None
 
     def nontrivial_key(self, case, out):
+        if case['kind'] == 'fgen':
+            n = sum(1 for l in out.get('text', '').split('\n') if l.rstrip().endswith('&'))
+            return ('fgen', out.get('lw'), n, hash(out.get('text')) & 0xffffffff) if n else None
         if not isinstance(out, dict) or 'ok' not in out or '\n' not in out['ok']:
             return None
         return (case['kind'], case.get('w'), out['ok'].count('\n'), hash(out['ok']) & 0xffffffff)
